@@ -81,6 +81,12 @@ def enumerate_faults(src, tree=None, lite=False):
                 for a, b in ((2, 1), (n + 1, n), ('end', 0)) if n else ((1, 0),):
                     yield {'op': 'fault', 'fault': 'reversed', 'path': p, 'field': field, 'start': a, 'stop': b, 'typ': typ}
                 yield {'op': 'fault', 'fault': 'slice-bad-code', 'path': p, 'field': field, 'n': n}
+                if typ in ('stmt', 'excepthandler', 'match_case') or not lite:
+                    code = E.K_ONE[typ][1 if len(E.K_ONE[typ]) > 1 else 0]
+                    for bo in ({'pep8space': 2}, {'trivia': (1, 2, 3)}, {'docstr': 'bogus'}, {'elif_': 3}, {'pars': 'x'}):
+                        for i in range(n + 1):
+                            yield {'op': 'insert', 'path': p, 'field': field, 'idx': i, 'code': [code[0], code[1], 'src'],
+                                   'opts': bo}
 
 
 def apply(fst, root, op):
